@@ -119,4 +119,78 @@ theorem readLoop_exact (m : Mem) (addr z : Nat) (hP : 0 < m.P) (h0 : m.byte (add
       simp only [hnull, if_false]
       exact ih (total + nx) (rem - nx) m.P _ hc (by omega) (by omega) hP (by omega)
 
+/-- two addresses inside one chunk that does not cross a page boundary lie in the same page -/
+theorem same_page (P a k nx : Nat) (hP : 0 < P) (hk : k < nx) (hfit : a % P + nx ≤ P) : (a + k) / P = a / P := by
+  have ha := Nat.div_add_mod a P
+  have : a + k = P * (a / P) + (a % P + k) := by omega
+  have hlt : a % P + k < P := by omega
+  rw [this, Nat.mul_add_div hP, Nat.div_eq_of_lt hlt]
+  simp
+
+theorem page_end_mod (P a nx : Nat) (hP : 0 < P) (hfit : a % P + nx = P) : (a + nx) % P = 0 := by
+  have ha := Nat.div_add_mod a P
+  have : a + nx = P * (a / P + 1) := by rw [Nat.mul_add, Nat.mul_one]; omega
+  rw [this]; exact Nat.mul_mod_right _ _
+
+/-- a string that runs into an unreadable page at offset `u` (nothing before it is NUL, everything
+before it is readable): the loop of vmReadStr ends with EFAULT. -/
+theorem readLoop_fault (m : Mem) (addr u : Nat) (hP : 0 < m.P) (hun : m.readable (addr + u) = false)
+    (hnz : ∀ i, i < u → m.byte (addr + i) ≠ 0) (hread : ∀ i, i < u → m.readable (addr + i) = true) :
+    ∀ (fuel total rem next : Nat) (acc : List Nat), total ≤ u → u < total + rem →
+      (addr + total) % m.P + next = m.P → 0 < next → rem ≤ fuel →
+      (readLoop m addr fuel total rem next acc).1 = true := by
+  intro fuel
+  induction fuel with
+  | zero => intro total rem next acc h1 h2 _ _ h4; omega
+  | succ fuel ih =>
+    intro total rem next acc h1 h2 hfit h3 h4
+    unfold readLoop
+    have hr : rem ≠ 0 := by omega
+    simp only [hr, if_false]
+    unfold vmRead
+    by_cases htu : total = u
+    · subst htu; simp [hun]
+    · have hlt : total < u := by omega
+      simp only [hread total hlt, if_true]
+      generalize hn : (if rem < next then rem else next) = nx
+      have hnx : nx ≤ rem ∧ 0 < nx ∧ nx ≤ next := by rw [← hn]; split <;> omega
+      -- the chunk lies in one readable page, so it ends at or before u
+      have hend : total + nx ≤ u := by
+        apply Nat.le_of_not_lt
+        intro hc
+        have hsame := same_page m.P (addr + total) (u - total) nx hP (by omega) (by omega)
+        have h1' : addr + total + (u - total) = addr + u := by omega
+        rw [h1'] at hsame
+        have hr1 := hread total hlt
+        unfold Mem.readable at hun hr1
+        rw [hsame, hr1] at hun
+        exact Bool.noConfusion hun
+      have hfull : nx = next := by
+        rw [← hn]; split
+        · rename_i hlt2; rw [← hn] at hend; simp only [hlt2, if_true] at hend; omega
+        · rfl
+      have hnull : ¬ hasNull (m.bytes (addr + total) nx) = true := by
+        rw [hasNull_bytes_iff]
+        rintro ⟨i, hi, hb⟩
+        exact hnz (total + i) (by omega) (by rw [← Nat.add_assoc]; exact hb)
+      simp only [hnull, if_false]
+      apply ih (total + nx) (rem - nx) m.P _ hend (by omega) _ hP (by omega)
+      rw [← Nat.add_assoc, hfull, page_end_mod m.P (addr + total) next hP hfit]; omega
+
+theorem takeWhile_range_first (p : Nat → Bool) (u n : Nat) (hu : u < n) (hp : ∀ i, i < u → p i = true) (hq : p u = false) :
+    (List.range n).takeWhile p = List.range u := by
+  have hn : n = u + (n - u - 1 + 1) := by omega
+  rw [hn, List.range_add, List.takeWhile_append_of_pos]
+  · simp [List.range_succ_eq_map, hq]
+  · intro x hx; exact hp x (List.mem_range.mp hx)
+
+theorem takeWhile_bytes_all (m : Mem) (a u : Nat) (hnz : ∀ i, i < u → m.byte (a + i) ≠ 0) :
+    (m.bytes a u).takeWhile (· != 0) = m.bytes a u := by
+  have h := List.takeWhile_append_of_pos (p := (· != 0)) (l₁ := m.bytes a u) (l₂ := []) (by
+    intro x hx
+    simp only [Mem.bytes, List.mem_map, List.mem_range] at hx
+    obtain ⟨i, hi, rfl⟩ := hx
+    simpa using hnz i hi)
+  simpa using h
+
 end GoSandbox.Lemmas.GetString
